@@ -11,7 +11,7 @@ def _c09_case(c):
 
 CONFIG = {
     "properties_file": "Properties/C09.v",
-    "proof_files": ["Proofs/OciGC.v"],
+    "proof_files": ["Base/Prelude.v", "Base/Regex.v", "Proofs/OciGC.v"],
     "model_files": ["Generated/GC09.v", "Model/OciGC.v"],
     "extract": "XC09.v",
     "ml_main": "c09_main.ml",
@@ -23,6 +23,7 @@ CONFIG = {
         "descriptor identity = digest identity (no two media types for the same bytes in one store); callers pass the descriptor the content was pushed with",
         "subjects are manifests (OCI referrers); registry.Referrers is undefined for other subjects",
         "graph.Memory is represented by its node set, predecessors[s] = {p in nodes | s in succ p} (property C07); re-checked on every case by comparing Predecessors of every node after every operation",
+        "the case lists of isKnownAlgorithm and descriptor.IsManifest are regenerated from the Go source on every run (Generated/GC09.v); that digest.SHA256/SHA512/SHA384 name the directories sha256/sha512/sha384 and which media-type constant belongs to which generator kind is stated by hand in Model/OciGC.v",
         "encoding/json, sha256, the file system (os.ReadDir/os.Remove/os.WriteFile) and go-digest Validate are not modelled: stray-file kinds (known algorithm directory, valid digest name) are inputs of the model",
         "digest-only references of live descriptors after GC are not compared (they do not influence later Delete/GC outcomes); index.json is not read after GC (F2 belongs to C08/C10)",
         "leaf descriptors that IndexAll records without their content being stored (foreign layers, unpushed blobs) are not graph nodes of the model; after the repair they are unobservable through Delete/GC/Predecessors",
